@@ -1,7 +1,7 @@
 (* C18set/Properties.v - the property theorems of unit C18set (con::set / con::map), and
    nothing else.  Every theorem is closed by [exact <lemma>] and followed by Print Assumptions. *)
 From Coq Require Import NArith List Bool.
-From Morfuse Require Import Base.Arr C18set.Model C18set.Spec C18set.Proofs.
+From Morfuse Require Import Base.Arr C18set.Model C18set.Spec C18set.ProofsLib C18set.Proofs.
 Import ListNotations.
 Local Open Scope N_scope.
 
@@ -30,6 +30,17 @@ Theorem C18set_no_operation_fails :
   forall (hash : N -> N) (full : bool) (ops : list op), ~ In None (run hash full ops).
 Proof. exact run_never_fails. Qed.
 Print Assumptions C18set_no_operation_fails.
+
+(* The specification itself is a finite map: a lookup after add finds the new value, other
+   keys are untouched; a lookup after remove finds nothing, other keys are untouched. *)
+Theorem C18set_the_specification_is_a_finite_map :
+  (forall k v l, alookup k (aset k v l) = Some v) /\
+  (forall k k' v l, k' <> k -> alookup k' (aset k v l) = alookup k' l) /\
+  (forall k l, alookup k (aremove k l) = None) /\
+  (forall k k' l, k' <> k -> alookup k' (aremove k l) = alookup k' l) /\
+  (forall k, alookup k [] = None).
+Proof. exact spec_is_a_finite_map. Qed.
+Print Assumptions C18set_the_specification_is_a_finite_map.
 
 (* The statement is not vacuous: a concrete history in the model with the colliding hash
    function of the harness (keys 0 and 1 share bucket 0 of 7, key 4 is in bucket 1; after
